@@ -376,6 +376,25 @@ class Interp:
             depth += 1
         return val
 
+    def snapshot(self, store, val, depth=0):
+        """Value with every pointer (at any depth) replaced by what it points to."""
+        if depth > 5:
+            return val
+        v = self.deref_full(store, val) if self.refs_of(val) else val
+        if not v.fields:
+            return v
+        ch = False
+        nf = {}
+        for k, f in v.fields.items():
+            if k.startswith("#"):
+                nf[k] = f
+                continue
+            g = self.snapshot(store, f, depth + 1)
+            if g is not f:
+                ch = True
+            nf[k] = g
+        return Val(v.atoms, nf) if ch else v
+
     def refs_of(self, val):
         return [a for a in val.atoms if isinstance(a[0], tuple) and a[0][0] == "ref"]
 
@@ -823,7 +842,7 @@ class Interp:
                    {"rid": rid, "text": t.get("text", ""), "targs": t.get("targs", []),
                     "unresolved": t.get("unresolved", False), "exp": t.get("exp", False)}, dest)
         self.events[(frame.ctx, bb, -2)] = ev
-        ev.extra["dargs"] = [self.deref_full(st, a) for a in args]
+        ev.extra["dargs"] = [self.snapshot(st, a) for a in args]
         ret = None
         handled = False
         callee = self.F.get(rid) if rid else None
@@ -950,6 +969,11 @@ class Interp:
                 st.update(st2)
                 if r is not None:
                     out = r if out is None else vjoin(out, r)
+                    key = (frame.ctx, "inv:%s:%s" % (o[1], site[1]), site[2])
+                    old = self.events.get(key)
+                    rv = r if old is None else vjoin(old.vals[0], r)
+                    self.events[key] = Event(frame.ctx, frame.body.id, site[1], site[2], "invoke", o[1], [rv],
+                                             cb.span, {"args": nargs})
             elif o[0] == "fnitem":
                 fb = self.F.get(o[1])
                 any_called = True
